@@ -89,8 +89,9 @@ func logCall(c Call) {
 }
 
 type genState struct {
-	seen   int
-	helper bool
+	seen    int
+	helper  bool
+	seenSet map[string]bool // lazily created in a fresh instance; a constructor-made instance brings its own (C05)
 }
 
 func ident(gen string) string {
@@ -149,11 +150,24 @@ func doCall(kind, gen string, stateful bool, st *genState, c gengo.Context, obj 
 			c.RenderT("\nfunc (@Type) Gen_@Gen() {}\n", snippet.IDArg("Type", obj), snippet.Arg("Gen", snippet.Block(ident(gen))))
 		}
 		if stateful {
-			c.Render(snippet.Block(fmt.Sprintf("\n// instance had seen %d type(s) before %s\n", st.seen, obj.Name())))
+			c.Render(snippet.Block(fmt.Sprintf("\n// instance had seen %d type(s) (%d distinct) before %s\n", st.seen, len(st.seenSet), obj.Name())))
+			// a package-specific import whose preferred local name (util) is the same for every package
+			lib := "lib1"
+			if strings.HasSuffix(pkgPath, "/q") {
+				lib = "lib2"
+			}
+			c.Render(snippet.Snippets(func(yield func(snippet.Snippet) bool) {
+				_ = yield(snippet.Block("\nvar _ ")) && yield(snippet.ID(ModPath+"/"+lib+"/util.T")) && yield(snippet.Block("\n"))
+			}))
 		}
 	}
 	st.seen++
+	if st.seenSet == nil {
+		st.seenSet = map[string]bool{}
+	}
+	st.seenSet[pkgPath+"."+obj.Name()] = true
 	deferHelper := func(mode string) {
+		outer := c
 		c.Defer(func(c gengo.Context) error {
 			logCall(Call{Kind: "defer", Pkg: pkgPath, Gen: gen, Type: obj.Name(), Beh: mode, SumNow: digestFile(sumFile()), OwnNow: digestFile(ownFile(c, gen))})
 			switch mode {
@@ -167,6 +181,13 @@ func doCall(kind, gen string, stateful bool, st *genState, c gengo.Context, obj 
 				c.Defer(func(c gengo.Context) error {
 					logCall(Call{Kind: "defer", Pkg: pkgPath, Gen: gen, Type: obj.Name() + "/nested", Beh: "nested_err", SumNow: digestFile(sumFile()), OwnNow: digestFile(ownFile(c, gen))})
 					return errors.New("planned nested defer failure")
+				})
+			case "defer_nested_outer":
+				// the follow-up is registered through the context GenerateType was given, not through the callback's argument
+				outer.Defer(func(c gengo.Context) error {
+					logCall(Call{Kind: "defer", Pkg: pkgPath, Gen: gen, Type: obj.Name() + "/nested", Beh: "nested_outer", SumNow: digestFile(sumFile()), OwnNow: digestFile(ownFile(c, gen))})
+					c.Render(snippet.Block(fmt.Sprintf("\nfunc nested_outer_%s_%s() {}\n", ident(gen), obj.Name())))
+					return nil
 				})
 			case "defer_nested":
 				c.Defer(func(c gengo.Context) error {
@@ -220,6 +241,9 @@ func doCall(kind, gen string, stateful bool, st *genState, c gengo.Context, obj 
 	case "render_defer_nested":
 		render()
 		deferHelper("defer_nested")
+	case "render_defer_nested_outer":
+		render()
+		deferHelper("defer_nested_outer")
 	default:
 		return fmt.Errorf("unknown planned behaviour %q", beh)
 	}
@@ -284,11 +308,11 @@ func (g *recNS[N]) New(c gengo.Context) gengo.Generator {
 func build[N namer](s GenSpec) gengo.Generator {
 	switch {
 	case s.Newer && s.Stateful:
-		return &recNS[N]{}
+		return &recNS[N]{recS[N]{st: genState{seenSet: map[string]bool{}}}}
 	case s.Newer:
 		return &recN[N]{}
 	case s.Stateful:
-		return &recS[N]{}
+		return &recS[N]{st: genState{seenSet: map[string]bool{}}} // registered through a "constructor"
 	}
 	return &rec[N]{}
 }
